@@ -130,8 +130,8 @@ def run_rows(ctx, replay_obj, binary, findings):
             what = "table %s answers against %s: in=%s out=%s" % (
                 row["in"]["tab"], ",".join(sorted(v["viol"])), json.dumps(row["in"], sort_keys=True)[:300],
                 json.dumps(ev["out"], sort_keys=True)[:300])
-            ctx.violation(what, {"property": EXT, "row": row, "out": ev["out"], "violated": sorted(v["viol"]),
-                                 "how": "bin/check X01 --replay <this file>"})
+            pend(ctx, what, {"property": EXT, "row": row, "out": ev["out"], "violated": sorted(v["viol"]),
+                             "how": "bin/check X01 --replay <this file>"})
         elif explained:
             for d in minimal:
                 f = by_dev[d]
@@ -287,7 +287,7 @@ def model_check(ctx, thorough):
 def generate(ctx, thorough):
     """-> list of behaviours; all TLC runs in parallel"""
     from concurrent.futures import ThreadPoolExecutor
-    total = 12000 if thorough else 420
+    total = 24000 if thorough else 420
     jobs = []
     for name, K, mt, me, mf, envk, share in SIM_PLANS:
         n = int(total * share)
@@ -295,7 +295,7 @@ def generate(ctx, thorough):
                                    cfg_text=cfg(K=K, maxtime=mt, maxenv=me, maxforce=mf, envk=envk,
                                                 old=(0, 10, 21, 23, 25), gen=True, tail="CHECK_DEADLOCK FALSE\n"))))
     for name, kw in SWEEPS:
-        jobs.append((name, (None if name == "sweep-edit" else 6000) if thorough else 90,
+        jobs.append((name, None if thorough else 90,
                      dict(name=name, workers=2, timeout=1500,
                           cfg_text=cfg(gen=True, tail="CHECK_DEADLOCK FALSE\n", **kw))))
     for dev, kw in sorted(WITNESS.items()):
@@ -448,9 +448,9 @@ def run(ctx, replay):
                 continue
             for v in viol:
                 preds[v] = preds.get(v, 0) + 1
-            ctx.violation("table.file violates " + ",".join(viol),
-                          {"property": EXT, "behaviour": by_id[t], "trace": by_t[t], "violated": viol,
-                           "how": "bin/check X01 --replay <this file>"})
+            pend(ctx, "table.file violates " + ",".join(viol),
+                 {"property": EXT, "behaviour": by_id[t], "trace": by_t[t], "violated": viol,
+                  "how": "bin/check X01 --replay <this file>"})
         elif conf:
             ok += 1
         else:
@@ -486,8 +486,24 @@ def run(ctx, replay):
     announce(ctx)
 
 
+def pend(ctx, what, obj):
+    if not hasattr(ctx, "x01_pending"):
+        ctx.x01_pending = []
+    ctx.x01_pending.append((what, obj))
+
+
 def announce(ctx):
-    """extension findings are announced as EXT-FINDING, not KNOWN-FINDING"""
+    """report the violations (one artefact per distinct set of violated predicates first: vlib keeps the
+    first eight), then the extension findings - as EXT-FINDING, not KNOWN-FINDING"""
+    pending = getattr(ctx, "x01_pending", [])
+    seen, first, rest = set(), [], []
+    for what, obj in pending:
+        k = (tuple(obj["violated"]), "row" in obj and obj["row"]["in"]["tab"])
+        (rest if k in seen else first).append((what, obj))
+        seen.add(k)
+    for what, obj in first + rest:
+        ctx.violation(what, obj)
+    ctx.x01_pending = []
     if ctx.known_seen:
         for fid, what in sorted(ctx.known_seen):
             print("EXT-FINDING: ext=%s %s %s" % (EXT, fid, what))
